@@ -31,7 +31,9 @@ def T : Table := SeedTable.fns
 
 def handle (_ : Unit) (j : Json) : Unit × Json :=
   ((), match getStr? j "op" with
-  | some "fns" => Json.mkObj [("fns", strs (T.map (·.1))), ("public", strs SeedTable.public)]
+  | some "fns" => Json.mkObj [("fns", strs (T.map (·.1))), ("public", strs SeedTable.public),
+      ("introspected", strs SeedTable.introspected),
+      ("introspectedBad", strs (SeedTable.introspected.filter (fun n => !entryOk T n)))]
   | some "wellSeeded" =>
     match getStr? j "f" with
     | none => badOp
